@@ -171,7 +171,9 @@ def acc_C09(w):
                   "step %d agent %s item %d, next event %s" % (t, who, j, peek()))
                 want_agent = e[2].agent_id
                 V(want_agent == who, "C09.batch_not_processed", "order of another agent processed in this batch")
-                running = e[-1]["running"]
+                # "unless a trading halt is in force": while any market of the run is stopped in an execution
+                # session, matching rounds are neither required nor forbidden (fills on a stopped market are C16's)
+                running = e[-1]["running"] and e[-1].get("all_running", True)
                 if s["withOrderExecution"]:
                     if running:
                         r = nxt("round")
